@@ -23,6 +23,15 @@ ALL_MEMBERS = {
 ACCESSORS = ('get_id', 'get_children', 'get_value', 'get_signature')
 
 
+def _override(M, E, name: str):
+    """the method ``name`` that an instance of M runs when it is not the one of E (or of a base of E): defined in M itself or in a class
+    that precedes E in the resolution order of M (a mixin); None when E's own version is what runs"""
+    owner = M.owner_of(name)
+    if owner is None or owner is E or E.is_subclass_of(owner):
+        return None
+    return M.resolve(name)
+
+
 def recursive_methods(E) -> dict[str, object]:
     """methods of Expression that call the same method on their children"""
     out = {}
@@ -69,7 +78,7 @@ def run(ctx: Ctx) -> None:
         raise AnalysisError(f'C16.T1: only {len(rec)} recursive tree methods found in Expression')
     for name, f in sorted(rec.items()):
         if name in ALL_MEMBERS:
-            g = M.methods.get(name)
+            g = _override(M, E, name)
             ok = g is None
             narrowed = False
             if g is not None:
@@ -79,7 +88,7 @@ def run(ctx: Ctx) -> None:
                     (f'{name} must visit every member ({ALL_MEMBERS[name]}) but MultipleExpression overrides it and forwards to the selected member only' if narrowed
                      else f'{name} is listed as visiting all members but MultipleExpression overrides it'), 'all-members', positive=narrowed)
             continue
-        g = M.methods.get(name)
+        g = _override(M, E, name)
         if g is None:
             ctx.add('C16.T1', f'MultipleExpression.{name}', False, f, f'Expression.{name} recurses over get_children(), which for a catalog are the children of the selected member: the selected member itself is skipped; MultipleExpression must override {name}', 'missing override', positive=True)
             continue
@@ -87,7 +96,7 @@ def run(ctx: Ctx) -> None:
         body = [unparse(s) for s in g.body]
         ctx.add('C16.T1', f'MultipleExpression.{name}', ok, g, f'{name} forwards to the selected member with ({", ".join(g.positional_params()[1:])})' if ok else (why or f'{name}: the delegation to the selected member is not in a recognised form: {body}'), str(body), positive=ok is False)
     for name in ACCESSORS:
-        g = M.methods.get(name)
+        g = _override(M, E, name)
         if g is None:
             ctx.add('C16.T1', f'MultipleExpression.{name}', False, M, f'{name} is not overridden in MultipleExpression: the base-class version answers for the catalog node itself, not for the selected member', name, positive=True)
             continue
